@@ -4,7 +4,7 @@
    collapse) are compiled and executed on every generated expression, under every scoping, and compared with this
    denotation. MapReduce and the debug operators are not modelled; stacking is covered under C12. *)
 Require Import List Bool ZArith.
-From FV Require Import Lib.Sym Model.C01 Model.C01Compile Model.C03 Proofs.C03 Model.C03Graph Proofs.C03GraphEval Proofs.C03GraphWf Proofs.C03GraphCompile Proofs.C03GraphPers Proofs.C03GraphCommit Proofs.C03GraphApply.
+From FV Require Import Lib.Sym Model.C01 Model.C01Compile Model.C03 Proofs.C03 Model.C03Graph Proofs.C03GraphEval Proofs.C03GraphWf Proofs.C03GraphCompile Proofs.C03GraphPers Proofs.C03GraphCommit Proofs.C03GraphApply Proofs.C03GraphCheck.
 Import ListNotations.
 
 (* any nesting / explicit scoping of the same operator sequence denotes the same train and apply chains *)
@@ -95,6 +95,13 @@ Theorem C03_apply_compiles : forall e a t sl visit,
   exists tb, bind (compile (Some l) (anodes ga) visit) canon = Some tb /\ delivered_with (Some l) tb (anodes ga) (apa ga) (xa s).
 Proof. exact apply_compiles. Qed.
 Print Assumptions C03_apply_compiles.
+
+(* the graph-level correspondence check (C03Graph.check_case_graph: the executable graph models run against the real
+   observations) asks nothing the denotation-level one does not: whenever the observations agree with `den`, the graph
+   models agree with them as well - it cannot raise an alarm of its own on code that meets the denotation *)
+Theorem C03_graph_check_implied : forall c, C03.check_case c = true -> check_case_graph c = true.
+Proof. exact graph_check_implied. Qed.
+Print Assumptions C03_graph_check_implied.
 
 Example C03_graph_witness :
   let a := OpSpec (Some (Actor 5 0 true)) TSame None in
